@@ -34,7 +34,7 @@ __CPROVER_requires(size <= RLC_BN_SIZE)
 __CPROVER_requires(VC_DIGS_FRESH(a, size))
 __CPROVER_requires(VC_LREQ_B(VC_LSHAPE, a, b, size))
 __CPROVER_requires(VC_LREQ_C3(VC_LSHAPE, c, a, b, size))
-__CPROVER_assigns(__CPROVER_object_upto(c, size * sizeof(dig_t)))
+VC_ASSIGNS(__CPROVER_object_upto(c, size * sizeof(dig_t)))
 __CPROVER_ensures(__CPROVER_return_value <= 1)
 __CPROVER_ensures(vc_val(c, size) + VC_CARRY(__CPROVER_return_value, size) == VC_VAL_OLD(a, size) + VC_VAL_OLD(b, size))
 ;
@@ -43,7 +43,7 @@ dig_t bn_add1_low(dig_t *c, const dig_t *a, dig_t digit, size_t size)
 __CPROVER_requires(size <= RLC_BN_SIZE)
 __CPROVER_requires(VC_DIGS_FRESH(a, size))
 __CPROVER_requires(VC_LREQ_C2(VC_LSHAPE, c, a, size))
-__CPROVER_assigns(__CPROVER_object_upto(c, size * sizeof(dig_t)))
+VC_ASSIGNS(__CPROVER_object_upto(c, size * sizeof(dig_t)))
 __CPROVER_ensures(size > 0 ==> __CPROVER_return_value <= 1)
 __CPROVER_ensures(size == 0 ==> __CPROVER_return_value == digit)
 __CPROVER_ensures(vc_val(c, size) + VC_CARRY(__CPROVER_return_value, size) == VC_VAL_OLD(a, size) + (vc_wide)digit)
@@ -54,7 +54,7 @@ __CPROVER_requires(size <= RLC_BN_SIZE)
 __CPROVER_requires(VC_DIGS_FRESH(a, size))
 __CPROVER_requires(VC_LREQ_B(VC_LSHAPE, a, b, size))
 __CPROVER_requires(VC_LREQ_C3(VC_LSHAPE, c, a, b, size))
-__CPROVER_assigns(__CPROVER_object_upto(c, size * sizeof(dig_t)))
+VC_ASSIGNS(__CPROVER_object_upto(c, size * sizeof(dig_t)))
 __CPROVER_ensures(__CPROVER_return_value <= 1)
 __CPROVER_ensures(vc_val(c, size) + VC_VAL_OLD(b, size) == VC_VAL_OLD(a, size) + VC_CARRY(__CPROVER_return_value, size))
 ;
@@ -63,7 +63,7 @@ dig_t bn_sub1_low(dig_t *c, const dig_t *a, dig_t digit, size_t size)
 __CPROVER_requires(size <= RLC_BN_SIZE)
 __CPROVER_requires(VC_DIGS_FRESH(a, size))
 __CPROVER_requires(VC_LREQ_C2(VC_LSHAPE, c, a, size))
-__CPROVER_assigns(__CPROVER_object_upto(c, size * sizeof(dig_t)))
+VC_ASSIGNS(__CPROVER_object_upto(c, size * sizeof(dig_t)))
 __CPROVER_ensures(size > 0 ==> __CPROVER_return_value <= 1)
 __CPROVER_ensures(size == 0 ==> __CPROVER_return_value == digit)
 __CPROVER_ensures(vc_val(c, size) + (vc_wide)digit == VC_VAL_OLD(a, size) + VC_CARRY(__CPROVER_return_value, size))
@@ -73,7 +73,7 @@ int dv_cmp(const dig_t *a, const dig_t *b, size_t size)
 __CPROVER_requires(size <= RLC_BN_SIZE)
 __CPROVER_requires(VC_DIGS_FRESH(a, size))
 __CPROVER_requires(VC_LREQ_B(VC_LSHAPE, a, b, size))
-__CPROVER_assigns()
+VC_ASSIGNS_NONE
 __CPROVER_ensures(__CPROVER_return_value == (vc_val(a, size) < vc_val(b, size) ? RLC_LT : vc_val(a, size) > vc_val(b, size) ? RLC_GT : RLC_EQ))
 ;
 
@@ -81,7 +81,7 @@ void dv_copy(dig_t *c, const dig_t *a, size_t digits)
 __CPROVER_requires(digits <= VC_W)
 __CPROVER_requires(VC_DIGS_FRESH(a, digits))
 __CPROVER_requires(VC_LREQ_C2(VC_LSHAPE, c, a, digits))
-__CPROVER_assigns(__CPROVER_object_upto(c, digits * sizeof(dig_t)))
+VC_ASSIGNS(__CPROVER_object_upto(c, digits * sizeof(dig_t)))
 __CPROVER_ensures(vc_val(c, digits) == VC_VAL_OLD(a, digits))
 ;
 
@@ -90,7 +90,7 @@ dig_t bn_lsh1_low(dig_t *c, const dig_t *a, size_t size)
 __CPROVER_requires(size <= RLC_BN_SIZE)
 __CPROVER_requires(VC_DIGS_FRESH(a, size))
 __CPROVER_requires(VC_LREQ_C2(VC_LSHAPE, c, a, size))
-__CPROVER_assigns(__CPROVER_object_upto(c, size * sizeof(dig_t)))
+VC_ASSIGNS(__CPROVER_object_upto(c, size * sizeof(dig_t)))
 __CPROVER_ensures(__CPROVER_return_value <= 1)
 __CPROVER_ensures(vc_val(c, size) + VC_CARRY(__CPROVER_return_value, size) == (VC_VAL_OLD(a, size) << 1))
 ;
@@ -99,7 +99,7 @@ dig_t bn_lshb_low(dig_t *c, const dig_t *a, size_t size, uint_t bits)
 __CPROVER_requires(size <= RLC_BN_SIZE && bits > 0 && bits < RLC_DIG)
 __CPROVER_requires(VC_DIGS_FRESH(a, size))
 __CPROVER_requires(VC_LREQ_C2(VC_LSHAPE, c, a, size))
-__CPROVER_assigns(__CPROVER_object_upto(c, size * sizeof(dig_t)))
+VC_ASSIGNS(__CPROVER_object_upto(c, size * sizeof(dig_t)))
 __CPROVER_ensures(size > 0 ==> ((vc_dbl)__CPROVER_return_value >> bits) == 0)
 __CPROVER_ensures(vc_val(c, size) + VC_CARRY(__CPROVER_return_value, size) == (VC_VAL_OLD(a, size) << bits))
 ;
@@ -108,7 +108,7 @@ dig_t bn_rsh1_low(dig_t *c, const dig_t *a, size_t size)
 __CPROVER_requires(size <= RLC_BN_SIZE)
 __CPROVER_requires(VC_DIGS_FRESH(a, size))
 __CPROVER_requires(VC_LREQ_C2(VC_LSHAPE, c, a, size))
-__CPROVER_assigns(__CPROVER_object_upto(c, size * sizeof(dig_t)))
+VC_ASSIGNS(__CPROVER_object_upto(c, size * sizeof(dig_t)))
 __CPROVER_ensures(__CPROVER_return_value == (dig_t)(VC_VAL_OLD(a, size) & 1))
 __CPROVER_ensures(vc_val(c, size) == (VC_VAL_OLD(a, size) >> 1))
 ;
@@ -117,7 +117,7 @@ dig_t bn_rshb_low(dig_t *c, const dig_t *a, size_t size, uint_t bits)
 __CPROVER_requires(size <= RLC_BN_SIZE && bits > 0 && bits < RLC_DIG)
 __CPROVER_requires(VC_DIGS_FRESH(a, size))
 __CPROVER_requires(VC_LREQ_C2(VC_LSHAPE, c, a, size))
-__CPROVER_assigns(__CPROVER_object_upto(c, size * sizeof(dig_t)))
+VC_ASSIGNS(__CPROVER_object_upto(c, size * sizeof(dig_t)))
 __CPROVER_ensures((vc_wide)__CPROVER_return_value == (VC_VAL_OLD(a, size) & ((((vc_wide)1) << bits) - 1)))
 __CPROVER_ensures(vc_val(c, size) == (VC_VAL_OLD(a, size) >> bits))
 ;
@@ -128,7 +128,7 @@ __CPROVER_requires(size <= RLC_BN_SIZE && digits <= size)
 __CPROVER_requires(VC_DIGS_FRESH(c, size))
 __CPROVER_requires(VC_LSHAPE == VC_L_NONE ? VC_DIGS_FRESH(a, size - digits) : VC_LSHAPE == VC_L_CA ? VC_PTR_SAME(a, c) : \
 	(VC_PTR_SAME(a, c) || VC_DIGS_FRESH(a, size - digits)))
-__CPROVER_assigns(__CPROVER_object_upto(c, size * sizeof(dig_t)))
+VC_ASSIGNS(__CPROVER_object_upto(c, size * sizeof(dig_t)))
 __CPROVER_ensures(vc_val(c, size) == (VC_VAL_OLD(a, size - digits) << (RLC_DIG * digits)))
 ;
 
@@ -137,14 +137,14 @@ void dv_rshd(dig_t *c, const dig_t *a, size_t size, uint_t digits)
 __CPROVER_requires(size <= RLC_BN_SIZE && digits <= size)
 __CPROVER_requires(VC_DIGS_FRESH(a, size))
 __CPROVER_requires(VC_LREQ_C2(VC_LSHAPE, c, a, size))
-__CPROVER_assigns(__CPROVER_object_upto(c, size * sizeof(dig_t)))
+VC_ASSIGNS(__CPROVER_object_upto(c, size * sizeof(dig_t)))
 __CPROVER_ensures(vc_val(c, size) == (VC_VAL_OLD(a, size) >> (RLC_DIG * digits)))
 ;
 
 void dv_zero(dig_t *a, size_t digits)
 __CPROVER_requires(digits <= RLC_DV_DIGS)       /* the precision-error exit for larger requests is exercised by a C08 unit */
 __CPROVER_requires(VC_DIGS_FRESH(a, digits))
-__CPROVER_assigns(__CPROVER_object_upto(a, digits * sizeof(dig_t)))
+VC_ASSIGNS(__CPROVER_object_upto(a, digits * sizeof(dig_t)))
 __CPROVER_ensures(digits <= VC_W ==> vc_val(a, digits) == 0)
 __CPROVER_ensures(gk < digits ==> a[gk] == 0)
 ;
@@ -157,7 +157,7 @@ dig_t bn_mul1_low(dig_t *c, const dig_t *a, dig_t digit, size_t size)
 __CPROVER_requires(size <= VC_MUL_MAXN)
 __CPROVER_requires(VC_DIGS_FRESH(a, size))
 __CPROVER_requires(VC_LREQ_C2(VC_LSHAPE, c, a, size))
-__CPROVER_assigns(__CPROVER_object_upto(c, size * sizeof(dig_t)))
+VC_ASSIGNS(__CPROVER_object_upto(c, size * sizeof(dig_t)))
 __CPROVER_ensures(vc_val(c, size) + VC_CARRY(__CPROVER_return_value, size) == vc_mul_dig(VC_VAL_OLD(a, size), digit))
 ;
 
@@ -165,7 +165,7 @@ dig_t bn_mula_low(dig_t *c, const dig_t *a, dig_t digit, size_t size)
 __CPROVER_requires(size <= RLC_BN_SIZE)
 __CPROVER_requires(VC_DIGS_FRESH(a, size))
 __CPROVER_requires(VC_DIGS_FRESH(c, size))
-__CPROVER_assigns(__CPROVER_object_upto(c, size * sizeof(dig_t)))
+VC_ASSIGNS(__CPROVER_object_upto(c, size * sizeof(dig_t)))
 __CPROVER_ensures(vc_val(c, size) + VC_CARRY(__CPROVER_return_value, size) == VC_VAL_OLD(c, size) + vc_mul_dig(VC_VAL_OLD(a, size), digit))
 ;
 
@@ -174,7 +174,7 @@ __CPROVER_requires(size <= RLC_BN_SIZE && b != 0)
 __CPROVER_requires(VC_DIGS_FRESH(a, size))
 __CPROVER_requires(VC_LREQ_C2(VC_LSHAPE, c, a, size))
 __CPROVER_requires(__CPROVER_is_fresh(d, sizeof(dig_t)))
-__CPROVER_assigns(__CPROVER_object_upto(c, size * sizeof(dig_t)), *d)
+VC_ASSIGNS(__CPROVER_object_upto(c, size * sizeof(dig_t)), *d)
 __CPROVER_ensures(*d < b)
 __CPROVER_ensures(vc_mul_dig(vc_val(c, size), b) + (vc_wide)*d == VC_VAL_OLD(a, size))
 ;
